@@ -18,7 +18,8 @@ LEVEL = "exploration"
 FLAVOUR = "plain"
 TIERS = {"quick": (40000, 150), "thorough": (1500000, 3000)}
 RULE_TEXT = ("one run = one generated chart (2-6 delayed sends with delays from a tie/near-tie/hour set, shared send ids, "
-             "immediate / timer-triggered / harness-triggered <cancel>) executed under one seeded schedule with adversarial time advance; "
+             "immediate / timer-triggered / harness-triggered <cancel>; 10 % of the runs instead drive a BasicDelayedEventQueue directly through enqueueDelayed / cancelDelayed / cancelAllDelayed "
+             "from one or two caller tasks with UUIDs from a small pool, so that an enqueue replaces a pending registration) executed under one seeded schedule with adversarial time advance; "
              "a run is non-trivial when at least two timers were pending together and at least one <cancel> executed while a send "
              "with its id was registered; distinct = distinct scheduler decision-sequence hashes among non-trivial runs")
 ASSUMPTIONS = [
@@ -36,9 +37,160 @@ class Context(object):
         self.opts = opts
 
 
+DIRECT_P = 0.10
+
+
+def gen_direct_plan(seed, k, rp, rs):
+    """The queue behind the public DelayedEventQueue interface, driven without an interpreter: one or two caller
+    tasks enqueue (also: the UUID of a registration that is still pending, which replaces it), cancel and cancel
+    all, with sleeps in between; every enqueue carries a unique event name so that a delivery is attributable."""
+    uuids = ["u%d" % i for i in range(rp.randint(1, 4))]
+    dl = [1, 2, 5, 10, 10, 11, 20, 50, 100, 1000]
+    n = [0]
+
+    def ops_for(nops, cancels_only=False):
+        ops = []
+        for _ in range(nops):
+            x = rp.random()
+            if x < (0.0 if cancels_only else 0.5):
+                ops.append({"op": "dq", "do": "enq", "q": 0, "uuid": rp.choice(uuids), "delay": rp.choice(dl), "name": "e%d" % n[0]})
+                n[0] += 1
+            elif x < 0.7:
+                ops.append({"op": "dq", "do": "cancel", "q": 0, "uuid": rp.choice(uuids + ["nosuch"])})
+            elif x < 0.73:
+                ops.append({"op": "dq", "do": "cancelall", "q": 0})
+            else:
+                ops.append({"op": "sleep", "ms": rp.choice([1, 1, 2, 5, 9, 10, 11, 20, 50, 99])})
+        return ops
+    main = [{"op": "dq", "do": "new", "q": 0}]
+    actors = {"main": main}
+    first = ops_for(rp.randint(1, 3))
+    if not any(o.get("do") == "enq" for o in first):
+        first.insert(0, {"op": "dq", "do": "enq", "q": 0, "uuid": uuids[0], "delay": rp.choice(dl), "name": "e%d" % n[0]})
+        n[0] += 1
+    main += first
+    if rp.random() < 0.4:
+        main.append({"op": "spawn", "actor": "b"})
+        actors["b"] = ops_for(rp.randint(1, 5), cancels_only=rp.random() < 0.3)
+    main += ops_for(rp.randint(2, 8))
+    if "b" in actors:
+        main.append({"op": "join", "actor": "b"})
+    # a last timer due after all others: what was due before it and is still missing when it arrives is lost
+    # (lateness alone is legal: the timer thread may be arbitrarily slow under the adversarial scheduler)
+    main.append({"op": "dq", "do": "enq", "q": 0, "uuid": "quit", "delay": 1500, "name": "quit"})
+    main.append({"op": "sleep", "ms": 4000})
+    if rp.random() < 0.7:
+        main.append({"op": "dq", "do": "del", "q": 0})
+    pol = rs.choice(["random", "random", "sticky", "pct"])
+    sched = {"seed": rs.getrandbits(31), "policy": pol,
+             "sticky_p": rs.choice([0.5, 0.8, 0.95]), "pct_d": rs.randint(1, 4), "pct_horizon": rs.choice([100, 300, 800]),
+             "time_adv_p": rs.choice([0, 0.02, 0.1, 0.3]),
+             "spurious_p": rs.choice([0, 0, 0.01]), "stall_p": rs.choice([0, 0, 0.02]), "stall_len": rs.choice([5, 30]),
+             "max_decisions": 200000}
+    return {"id": k, "seed": seed, "entropy_seed": seed & 0x7fffffff, "sched": sched, "direct": True,
+            "charts": {}, "actors": actors}, None
+
+
+def oracle_direct(plan, res):
+    v = hard_failures(res, PROP)
+    info = {"nontrivial": False, "near_tie": 0, "cancel_hit_pending": 0, "cancel_after_fire": 0, "delivered": 0, "cancelled": 0, "reenq_pending": 0}
+    if res.end is None:
+        return v, info
+    regs = {}      # event name -> registration
+    order = []
+    cur = {}       # uuid -> name of the latest registration
+    enders = []    # (bseq, aseq, ta, uuid or None, kind): cancels, cancel-alls, replacing enqueues
+    open_c = {}
+    fires = {}
+    end_seq = None
+    for r in res.lines:
+        kind = r[KIND]
+        if not (isinstance(r[SESS], str) and r[SESS] == "dq0"):
+            continue
+        if kind == "dqenq<":
+            name, uuid, delay = r[5], r[6], r[7]
+            regs[name] = {"name": name, "uuid": uuid, "delay": delay, "t0": r[T], "seq0": r[SEQ], "t1": None, "seq1": None}
+            order.append(name)
+            open_c[("enq", r[TASK], uuid)] = r[SEQ]
+        elif kind == "dqenq>":
+            name, uuid = r[5], r[6]
+            regs[name]["t1"], regs[name]["seq1"] = r[T], r[SEQ]
+            enders.append((open_c.pop(("enq", r[TASK], uuid), r[SEQ]), r[SEQ], r[T], uuid, "enqueue with the same UUID", name))
+        elif kind == "dqcnl<":
+            open_c[("cnl", r[TASK], r[5])] = r[SEQ]
+        elif kind == "dqcnl>":
+            enders.append((open_c.pop(("cnl", r[TASK], r[5]), r[SEQ]), r[SEQ], r[T], r[5], "cancelDelayed", None))
+        elif kind == "dqcna<":
+            open_c[("cna", r[TASK])] = r[SEQ]
+        elif kind == "dqcna>":
+            enders.append((open_c.pop(("cna", r[TASK]), r[SEQ]), r[SEQ], r[T], None, "cancelAllDelayed", None))
+        elif kind == "dqdel<":
+            if end_seq is None:
+                end_seq = (r[SEQ], r[T])
+        elif kind == "dqfire":
+            fires.setdefault(r[5], []).append((r[SEQ], r[T], r[6]))
+    for name, fl in fires.items():
+        R = regs.get(name)
+        if R is None:
+            v.append(("C09.at-most-once", "delivery of an event %s that was never enqueued" % name))
+            continue
+        if len(fl) > 1:
+            v.append(("C09.at-most-once", "event %s (uuid %s, delay %dms) delivered %d times" % (name, R["uuid"], R["delay"], len(fl))))
+        for (seq, t, u) in fl:
+            if t < R["t0"] + R["delay"] * 1000:
+                v.append(("C09.not-early", "event %s (uuid %s) enqueued at t=%dus with delay %dms delivered at t=%dus" % (name, R["uuid"], R["t0"], R["delay"], t)))
+            if u != R["uuid"]:
+                v.append(("C09.at-most-once", "event %s enqueued under uuid %s delivered under uuid %s" % (name, R["uuid"], u)))
+    targeted = set()
+    for (bseq, aseq, ta, uuid, what, newname) in enders:
+        for name in order:
+            R = regs[name]
+            if name == newname or (uuid is not None and R["uuid"] != uuid):
+                continue
+            if aseq > R["seq0"]:
+                targeted.add(name)
+            if R["seq1"] is not None and R["seq1"] < bseq:
+                fired_before = name in fires and fires[name][0][0] < bseq
+                if fired_before:
+                    info["cancel_after_fire"] += 1
+                else:
+                    info["cancel_hit_pending"] += 1
+                    if newname:
+                        info["reenq_pending"] += 1
+                if ta < R["t0"] + R["delay"] * 1000 and name in fires:
+                    v.append(("C09.cancelled-delivered", "%s of uuid %s completed at t=%dus, before the due time %dus of event %s, yet it was delivered at t=%dus" % (
+                        what, R["uuid"], ta, R["t0"] + R["delay"] * 1000, name, fires[name][0][1])))
+    done = [nm for nm in order if regs[nm]["t1"] is not None]
+    for a in done:
+        for b in done:
+            if a == b:
+                continue
+            A, B = regs[a], regs[b]
+            if abs((A["t0"] + A["delay"] * 1000) - (B["t0"] + B["delay"] * 1000)) <= 1000 and a < b:
+                info["near_tie"] += 1
+            if A["t1"] + A["delay"] * 1000 + 1000 < B["t0"] + B["delay"] * 1000 and a in fires and b in fires and fires[a][0][0] > fires[b][0][0]:
+                v.append(("C09.due-order", "event %s (due <= %dus) delivered after event %s (due >= %dus)" % (a, A["t1"] + A["delay"] * 1000, b, B["t0"] + B["delay"] * 1000)))
+    Q = regs.get("quit")
+    if not res.failed_hard() and Q is not None and "quit" in fires and "quit" not in targeted:
+        for name in done:
+            R = regs[name]
+            if name in targeted or name in fires or name == "quit":
+                continue
+            if R["t1"] + R["delay"] * 1000 + 1000 < Q["t0"] + Q["delay"] * 1000:
+                v.append(("C09.lost", "event %s (uuid %s, delay %dms, never cancelled or replaced, due before the last timer) was never delivered although the last timer was" % (
+                    name, R["uuid"], R["delay"])))
+    info["delivered"] = len(fires)
+    info["cancelled"] = len(targeted)
+    if len(done) >= 2 and info["cancel_hit_pending"] > 0:
+        info["nontrivial"] = True
+    return v, info
+
+
 def gen_plan(seed, k):
     rp = usimlib.substream(seed, "plan")
     rs = usimlib.substream(seed, "sched")
+    if usimlib.substream(seed, "mode").random() < DIRECT_P:
+        return gen_direct_plan(seed, k, rp, rs)
     dm = rp.choice(["null", "null", "lua"])
     nsend = rp.randint(2, 6)
     # scale: once in a while a session arms hundreds of timers with pairwise different durations (bounded tables,
@@ -143,6 +295,8 @@ def chart_index(xml):
 
 def oracle(plan, res):
     """-> (violations [(rule, detail)], info dict)"""
+    if plan.get("direct"):
+        return oracle_direct(plan, res)
     v = hard_failures(res, PROP)
     info = {"nontrivial": False, "near_tie": 0, "cancel_hit_pending": 0, "cancel_after_fire": 0, "delivered": 0, "cancelled": 0}
     if res.end is None:
@@ -250,7 +404,9 @@ def run_one(ctx, usim, seed, k, acc):
     acc.sim_ms += end.get("sim_ms", 0)
     acc.decisions += end.get("decisions", 0)
     acc.count("pol." + plan["sched"]["policy"])
-    acc.count("probe.bulk_runs_with_more_than_256_distinct_timer_durations", 1 if plan["charts"]["main"].count("<send ") > 257 else 0)
+    acc.count("probe.bulk_runs_with_more_than_256_distinct_timer_durations", 1 if plan["charts"].get("main", "").count("<send ") > 257 else 0)
+    acc.count("probe.direct_queue_runs", 1 if plan.get("direct") else 0)
+    acc.count("probe.direct_enqueue_replaced_pending_registration", info.get("reenq_pending", 0))
     acc.count("fault.adversarial_time_advance", end.get("adv_time", 0))
     acc.count("fault.spurious_wakeup", end.get("spurious", 0))
     acc.count("fault.task_stall", end.get("stalls", 0))
@@ -274,7 +430,7 @@ def run_one(ctx, usim, seed, k, acc):
         acc.violations.append({"rule": rule, "detail": detail, "plan": plan, "k": k})
         break
     if len(acc.samples) < 1 and info["nontrivial"] and k < 64:
-        acc.samples.append({"run": k, "seed": seed, "chart": plan["charts"]["main"], "actors": plan["actors"], "sched": plan["sched"],
+        acc.samples.append({"run": k, "seed": seed, "chart": plan["charts"].get("main", "(direct queue run)"), "actors": plan["actors"], "sched": plan["sched"],
                             "delivered": info["delivered"], "cancel_targeted": info["cancelled"], "trace_tail": tail(res.lines, 12)})
 
 
